@@ -81,7 +81,7 @@ class Increments(Machine):
     @classmethod
     def _cfg(cls, rng):
         fam = rng.choice(FAMILIES)
-        cfg = {"family": fam, "seed": rng.getrandbits(32)}
+        cfg = {"family": fam, "seed": rng.getrandbits(32), "scale_exp": rng.choice([-6, -3, 0, 0, 0, 3, 6])}
         if fam.startswith("pca"):
             cfg.update(centred=rng.random() < 0.65, d=rng.randint(2, 10) if fam == "pca_vec" else 2 * rng.randint(2, 5))
             cfg["n0"] = rng.randint(2, 14)
@@ -159,6 +159,7 @@ class Increments(Machine):
                 ctx.probe("pca_centred")
             else:
                 ctx.probe("pca_uncentred")
+            X = X * 10.0 ** cfg.get("scale_exp", 0)
             self.X, self.d = X, d
             self.tmpl = PointCloud(np.zeros((d // 2, 2))) if fam == "pca_obj" else None
             if self.tmpl is not None:
@@ -172,7 +173,7 @@ class Increments(Machine):
             d = V * k
             self.graph = make_graph(cfg["graph"], V, g)
             A = np.eye(d) + 0.5 * g.randn(d, d) / np.sqrt(d)
-            X = g.randn(STREAM, d) @ A.T * 3.0 + g.uniform(-5, 5, size=d)
+            X = (g.randn(STREAM, d) @ A.T * 3.0 + g.uniform(-5, 5, size=d)) * 10.0 ** cfg.get("scale_exp", 0)
             self.X, self.d = X, d
             self.tmpl = PointCloud(np.zeros((V, 2))) if fam == "gmrf_obj" else None
             if self.tmpl is not None:
@@ -204,7 +205,7 @@ class Increments(Machine):
     def step(self, op):
         ctx = self.ctx
         s = op["size"]
-        if self.pos + s > STREAM:
+        if s < 1 or self.pos + s > STREAM:
             return
         chunk = self.X[self.pos:self.pos + s]
         arg = self._samples(chunk)
@@ -253,7 +254,7 @@ class Increments(Machine):
                     lambda: "n_samples %r after composition %r (expected %d)" % (m.n_samples, self.comp, n))
         vec = (lambda o: np.asarray(o if self.tmpl is None else o.as_vector(), float).ravel())
         mu, mub = vec(m.mean()), vec(b.mean())
-        err = float(np.abs(mu - mub).max() / (1 + np.abs(mub).max()))
+        err = float(np.abs(mu - mub).max() / np.abs(self.X).max())
         ctx.err("pca_mean", err)
         ctx.require(err < 1e-9, "incremental_equals_batch", "pca_mean_" + tag,
                     lambda: "mean differs by %.3g after composition %r" % (err, self.comp))
@@ -306,7 +307,7 @@ class Increments(Machine):
                     lambda: "n_samples %r expected %d" % (m.n_samples, rows.shape[0]))
         vec = (lambda o: np.asarray(o if self.tmpl is None else o.as_vector(), float).ravel())
         mu, mub = vec(m.mean()), vec(b.mean())
-        err = float(np.abs(mu - mub).max() / (1 + np.abs(mub).max()))
+        err = float(np.abs(mu - mub).max() / np.abs(self.X).max())
         ctx.err("gmrf_mean", err)
         ctx.require(err < 1e-9, "incremental_equals_batch", "gmrf_mean",
                     lambda: "mean differs by %.3g after composition %r" % (err, self.comp))
